@@ -82,18 +82,20 @@ pub open spec fn level(k: int, i: Input) -> Option<(Input, Factor)> {
     },
   }
 }
-// a factor: one of the primaries -- among them a parenthesised formula, `-factor`, `!factor` -- with an optional postfix transpose
-pub open spec fn factor_table() -> Seq<A> {
-  seq![A::ParentheticalTerm, A::NegateFactor, A::NotFactor, A::MatrixComprehension, A::Structure, A::FunctionCall, A::Literal, A::Slice, A::Var]
-}
-pub open spec fn factor_spec(i: Input) -> Option<(Input, Factor)> {
-  match best(factor_table(), i) {
+// a factor: one of the primaries -- among them a parenthesised formula, `-factor`, `!factor` -- with an optional postfix transpose.
+// WHICH other primaries exist (literals, calls, slices, ..) is the grammar's business, not the property's: the table is read from the code on every
+// run (`table` below); that it CONTAINS the three primaries the property speaks of is a separate obligation (required_primaries)
+pub open spec fn factor_spec_of(table: Seq<A>, i: Input) -> Option<(Input, Factor)> {
+  match best(table, i) {
     None => None,
     Some((i1, f)) => match opt_t(A::Transpose, i1) {
       None => None,
       Some((i2, t)) => Some((i2, if t is Some { Factor::Transpose(Box::new(f)) } else { f })),
     },
   }
+}
+pub open spec fn has_required_primaries(table: Seq<A>) -> bool {
+  table.contains(A::ParentheticalTerm) && table.contains(A::NegateFactor) && table.contains(A::NotFactor)
 }
 // prefix operators apply to a FACTOR (so they bind tighter than every binary operator)
 pub open spec fn prefix_spec(tok: A, i: Input, neg: bool) -> Option<(Input, Factor)> {
